@@ -27,7 +27,7 @@ def check(ctx) -> Result:
         "formulas of performance and error rate."
     )
     res.assumptions = ["qualifier tables of rb_states.py (documented spaces of public parameters and accessors)"]
-    n = rb_states.run(ctx, res, rules={"B1-backend-arguments", "B1-loss-padding", "B2-fock-basis-spaces", "B3-herald-side", "B5-counts-same-space", "B1-post-selection-visible", "B1-marginalise-loss-modes"})
+    n = rb_states.run(ctx, res, rules={"B1-backend-arguments", "B1-loss-padding", "B2-fock-basis-spaces", "B3-herald-side", "B5-counts-same-space", "B1-post-selection-visible", "B1-marginalise-loss-modes", "B6-shortcut-guard-space"})
     res.floor("B resolved sink checks", n, 40)
     # analyzer/quick-sampler result keys are visible states
     n2 = rb_states.run(ctx, res, only=["Analyzer.", "QuickSampler."], rules={"B4-public-result-visible"})
@@ -50,4 +50,9 @@ def check(ctx) -> Result:
     # analyzer: validation of inputs like the simulator (sibling)
     an = ctx.ix.module(AN).classes.get("Analyzer")
     rv_validate.loop_validation(ctx, res, an.methods["_process_inputs"], "inputs", "n_modes", label="Analyzer._process_inputs:inputs", need_type=False)
+    from ..rules import rf_cache as _rf
+    n7 = 0
+    for _cn in ['Simulator', 'Sampler', 'QuickSampler', 'Analyzer']:
+        n7 += _rf.f7_setters_store_the_object(ctx, res, ctx.ix.cls(_cn))
+    res.floor("F7 setter stores", n7, 4)
     return res
